@@ -44,6 +44,9 @@ func main() {
 		fmt.Fprintln(os.Stderr, "unknown property", args[0])
 		os.Exit(2)
 	}
+	if args[1] == "--trace" {
+		os.Exit(props.TraceFile(args[2]))
+	}
 	if args[1] == "--minimize" {
 		if len(args) < 3 {
 			os.Exit(2)
